@@ -133,6 +133,84 @@ def broadcastDims (shapes : List (List Dim)) : Option (List Dim) :=
   if shapes.isEmpty then none
   else bcastPadded (maxRank shapes) (shapes.map (padDims (maxRank shapes)))
 
+/-! ## consistency checker for a small operator vocabulary (one scope) -/
+
+/-- shape- and type-preserving unary operators (`T → T`, same shape) -/
+def unaryOps : List String :=
+  ["Relu", "Tanh", "Sin", "Cos", "Tan", "Neg", "Exp", "Log", "Sigmoid", "Abs", "Sqrt", "Identity", "Erf",
+   "Floor", "Ceil", "Round", "Softplus", "Softsign", "Reciprocal", "Sign", "Sinh", "Cosh", "Asin", "Acos",
+   "Atan", "Asinh", "Acosh", "Atanh", "Not", "Softmax", "LogSoftmax", "Gelu", "Swish", "HardSwish", "Elu",
+   "Selu", "LeakyRelu", "Celu", "HardSigmoid", "ThresholdedRelu", "Mish"]
+
+/-- binary operators with numpy broadcasting and one element type `T × T → T` -/
+def binaryOps : List String := ["Add", "Sub", "Mul", "Div", "Max", "Min"]
+
+def annotOf (vi : List (String × Annot)) (x : String) : Annot := (lookup x vi).getD ⟨none, none⟩
+
+def dimLeB (d' d : Dim) : Bool := d' == d || d' == .unk
+
+def dimsLeB : List Dim → List Dim → Bool
+  | [], [] => true
+  | d' :: l', d :: l => dimLeB d' d && dimsLeB l' l
+  | _, _ => false
+
+/-- `a'` follows from `a` (dtype dropped or kept; dims dropped, or kept / forgotten one by one) -/
+def annotWeakerB (a' a : Annot) : Bool :=
+  (a'.dtype.isNone || a'.dtype == a.dtype) &&
+  (match a'.dims, a.dims with
+   | none, _ => true
+   | some l', some l => dimsLeB l' l
+   | some _, none => false)
+
+inductive VocabKind where
+  | unary (x y : String)
+  | binary (a b y : String)
+  | other
+
+/-- which rule applies to a node -/
+def vocabKind (n : Node) : VocabKind :=
+  if n.domain != "" then .other
+  else if unaryOps.contains n.op then
+    match n.ins, n.outsRaw with
+    | [x], [y] => .unary x y
+    | _, _ => .other
+  else if binaryOps.contains n.op then
+    match n.ins, n.outsRaw with
+    | [a, b], [y] => .binary a b y
+    | _, _ => .other
+  else .other
+
+def nodeConsistent (vi : List (String × Annot)) (n : Node) : Bool :=
+  match vocabKind n with
+  | .unary x y => annotWeakerB (annotOf vi y) (annotOf vi x)
+  | .binary a b y =>
+    let A := annotOf vi a
+    let B := annotOf vi b
+    let Y := annotOf vi y
+    (Y.dtype.isNone || Y.dtype == A.dtype) &&
+    (match Y.dims with
+     | none => true
+     | some ly =>
+       match A.dims, B.dims with
+       | some la, some lb =>
+         (match broadcastDims [la, lb] with
+          | some r => dimsLeB ly r
+          | none => false)
+       | _, _ => false)
+  | .other => true
+
+def inVocab (n : Node) : Bool :=
+  match vocabKind n with
+  | .other => false
+  | _ => true
+
+/-- every vocabulary node of ONE scope has an output annotation implied by its input annotations -/
+def annotConsistent (g : Graph) : Bool := g.nodes.all (nodeConsistent g.vinfo)
+
+/-- (vocabulary nodes, of which certified) of one scope – driver statistics -/
+def consistentStats (g : Graph) : Nat × Nat :=
+  ((g.nodes.filter inVocab).length, (g.nodes.filter (fun n => inVocab n && nodeConsistent g.vinfo n)).length)
+
 /-! ## rendering (driver) -/
 
 mutual
